@@ -505,6 +505,16 @@ def curie_join_check(cx: Cx, ob: Ob, fn_name: str, base_pred, base_desc: str, no
     for t, ctx in s.returns():
         if is_const(t, None) or op(t) == "param":
             continue
+        # a branch for arguments that are NOT strings (a pre-parsed reference, ..): new surface next to the documented
+        # calls, which pass a str and never take it
+        arg0 = ("param", fn.params[1].name) if len(fn.params) > 1 else None
+        if arg0 is not None and any(
+            g.kind == "guard" and g.b is True and op(g.a) == "call" and g.a[1] == ("builtin", "isinstance") and g.a[2][:1] == (arg0,) and len(g.a[2]) == 2
+            and not any(show(y).rsplit(".", 1)[-1] in ("str", "object") for y in (g.a[2][1][1] if op(g.a[2][1]) == "tuple" else (g.a[2][1],)))
+            for g in ctx.guards
+        ):
+            ob.site(f"{where(fn, ctx.path.out[2])} {fn.qualname}", "branch for non-string arguments (not a documented call)")
+            continue
         line = ctx.path.out[2]
         t2 = inline_methods(cx, t, me, CONV, {"format_curie"})
         parts = concat_parts(t2)
